@@ -6,14 +6,15 @@ From YV Require Import C06.C06Base C06.C06Dispatch C06.C06Kinds Gen.C06Layers Ge
 Definition reply_feat (x t : ostr) (i : string) (fr to p : ostr) (ch : list (string * ostr)) : feat :=
   mkFeat "iq" x t (Some i) fr to p [] ch false None false false false false.
 
-(* a reply is not itself a server ping and carries no <sync/> (contact sync is not a registered request) *)
-Definition plain_reply (x : ostr) (ch : list (string * ostr)) : Prop :=
-  oeq x "urn:xmpp:ping" = false /\ existsb (fun c => String.eqb (fst c) "sync") ch = false.
+(* a reply is not itself a server ping; only the reply to a contact sync (registered by LContacts) carries <sync/> *)
+Definition plain_reply (l : lid) (x : ostr) (ch : list (string * ostr)) : Prop :=
+  oeq x "urn:xmpp:ping" = false /\
+  (lid_eqb l LContacts || negb (existsb (fun c => String.eqb (fst c) "sync") ch)) = true.
 
-Definition registering : list lid := [LIq; LPresence; LGroups; LMedia; LProfiles].
+Definition registering : list lid := [LIq; LPresence; LContacts; LGroups; LMedia; LProfiles].
 
 Lemma reply_single : forall c l, In l registering -> existsb (lid_eqb l) (protocol_layers c) = true ->
-  forall i ok err x fr to p ch, plain_reply x ch ->
+  forall i ok err x fr to p ch, plain_reply l x ch ->
     (let a := par_recv repaired c [(l, i, Some ok, err)] (reply_feat x (Some "result") i fr to p ch) in
      (ups a, downs a, raises a) = ([ok], [], 0)) /\
     (let a := par_recv repaired c [(l, i, Some ok, err)] (reply_feat x (Some "error") i fr to p ch) in
@@ -25,14 +26,16 @@ Proof.
   cbv zeta; unfold reply_feat; cbn;
   unfold layer_recv, registry_recv, reg_find, has_child; cbn;
   rewrite ?String.eqb_refl; cbn;
-  unfold recv_iq, recv_contacts, has_child; cbn; rewrite ?Hp, ?Hsy; cbn;
+  unfold recv_iq, recv_contacts, has_child; cbn; rewrite ?Hp; cbn in Hsy;
+  try (apply Bool.negb_true_iff in Hsy; rewrite ?Hsy); cbn;
   destruct err; split; reflexivity.
 Qed.
 
 Definition request_layer (k : kind) : lid :=
   match k_module k with
   | Some MGroups => LGroups | Some MMedia => LMedia | Some MProfiles => LProfiles | Some MPrivacy => LPrivacy
-  | None => if oeq (k_xmlns k) "w:p" then LIq else LPresence
+  | None => if oeq (k_xmlns k) "w:p" then LIq
+            else if oeq (k_xmlns k) "urn:xmpp:whatsapp:sync" then LContacts else LPresence
   end.
 
 Definition registers_as (c : flags) (k : kind) (ok : string) (err : option string) : Prop :=
@@ -55,7 +58,7 @@ Proof.
 Qed.
 
 Definition reply_once_prop (c : flags) (k : kind) (ok : string) (err : option string) : Prop :=
-  forall d i x fr to p ch, fd_id d = Some i -> plain_reply x ch ->
+  forall d i x fr to p ch, fd_id d = Some i -> plain_reply (request_layer k) x ch ->
     let st := apply_registers [] (par_send repaired c (feat_of k d)) in
     (let a := par_recv repaired c st (reply_feat x (Some "result") i fr to p ch) in
      (ups a, downs a, raises a) = ([ok], [], 0)) /\
